@@ -115,6 +115,7 @@ const (
 	EvRet                   // handler returns a value to be rendered; A=kind S=value
 	EvFS                    // file-system call; S=op+path, A=result class
 	EvEscaped               // a panic escaped ServeHTTP
+	EvAttempt               // a handler is about to write to the response through the writer it was given; A=op
 )
 
 // Ev is one recorded event.
@@ -128,7 +129,7 @@ type Ev struct {
 var evNames = map[uint8]string{
 	EvEnter: "enter", EvExit: "exit", EvPanicOut: "panic-out", EvNextCall: "next(", EvNextRet: ")next", EvNextPanic: ")next!panic",
 	EvSwallow: "swallow", EvSpyHeader: "W.status", EvSpyHeader2: "W.status-again", EvSpyWrite: "W.body", EvSpyFlush: "W.flush",
-	EvSpyRefuse: "W.refuse", EvCancel: "cancel", EvNote: "note", EvBefore: "before", EvRaise: "raise", EvRet: "ret", EvFS: "fs", EvEscaped: "ESCAPED",
+	EvSpyRefuse: "W.refuse", EvCancel: "cancel", EvNote: "note", EvBefore: "before", EvRaise: "raise", EvRet: "ret", EvFS: "fs", EvEscaped: "ESCAPED", EvAttempt: "attempt",
 }
 
 func itoa(i int) string {
@@ -191,6 +192,7 @@ const (
 	OpCookie // SetCookie
 	OpSeeSvc // note the application service seen through DI
 	OpSeeHeaders // note the response header keys present so far
+	OpReplaceCtx // install a derived cancellable context as the request's context (what a timeout middleware does); later cancels hit that one
 	opMax
 )
 
